@@ -232,6 +232,17 @@ def directed(rng):
              "cost": {"type": "fixed", "value": c}} for k, c in ((0, 0.5), (3, 0.05), (6, 0.4))]
         for st in ("balanced_market", "greedy", "balanced", "peak_shaving"):
             out.append((js, st, {"ALLOW_NEGATIVE_SOC": True}))
+    # D4: stationary battery with a minimum charging power and a local surplus below it (price above the threshold)
+    for _ in range(2):
+        js = scen.gen_scenario(rng, n_gc=1, n_veh=1, features={"battery", "generation"}, steps=6, interval=60)
+        for b in js["components"]["batteries"].values():
+            b.update({"min_charging_power": rng.choice([5, 3]), "soc": 0.3, "capacity": 50})
+        for v in js["components"]["vehicles"].values():
+            v.update({"soc": 1.0, "desired_soc": 0.5})
+        for g in js["events"]["local_generation"].values():
+            g["values"] = [rng.choice([2, 1, 2.5, 0]) for _ in g["values"]]
+        for st in ("greedy", "balanced"):
+            out.append((js, st, {}))
     # D3: stationary battery + cheap price + limit below the rating from the start
     for _ in range(2):
         js = scen.gen_scenario(rng, n_gc=1, n_veh=2, features={"battery", "price", "limit", "fixed"}, steps=8, interval=60)
